@@ -182,4 +182,40 @@ Theorem C02_retype_fixes_other_kinds :
   end.
 Proof. exact retype_ok_fixed. Qed.
 
+(* the search model (Model/WrapSearch.v, tied decision by decision by the unit search): every solution has one decision per token,
+   each respecting get_formatting_invariant (break after line comments, before individual comments, ...), at every nesting depth of
+   child lines and for every cache content - what used to be the monitored hypothesis plan_respects *)
+From PasfmtVerif Require Import Model.WrapContexts Model.WrapSearch Model.WrapFormat Proofs.WrapSearchProofs Proofs.WrapSearchDeepProofs.
+Theorem C02_search_solution_respects_invariants :
+  forall (W : wsettings) (lvs : list lview) (fmain : nat)
+    (child_solve : sst -> lview -> N * N -> first_decision -> sst * option solution)
+    (lv : lview) (st : sst) (ws : N * N) (first : first_decision) 
+    (st' : sst) (s : solution),
+  find_optimal_solution W lvs fmain child_solve lv st ws first = (st', SR_ok s) ->
+  match lv_recs lv with
+  | [] => sol_decs s = []
+  | r :: _ => sol_ok lv (first_dec first (tr_inv r)) s
+  end.
+Proof. exact find_optimal_solution_ok. Qed.
+
+Theorem C02_search_solve_respects_invariants :
+  forall (W : wsettings) (lvs : list lview) (fmain depth : nat) (st : sst) 
+    (lv : lview) (ws : N * N) (first : first_decision) (st' : sst) 
+    (s : solution),
+  solve W lvs fmain depth st lv ws first = (st', Some s) ->
+  match lv_recs lv with
+  | [] => sol_decs s = []
+  | r :: _ => sol_ok lv (first_dec first (tr_inv r)) s
+  end.
+Proof. exact solve_ok. Qed.
+
+Theorem C02_search_child_solutions_respect_invariants :
+  forall (W : wsettings) (lvs : list lview) (fmain depth : nat) (st : sst) 
+    (lv : lview) (ws : N * N) (first : first_decision),
+  cache_ok lvs st ->
+  cache_ok lvs (fst (solve W lvs fmain depth st lv ws first)) /\
+  (forall s : solution,
+   snd (solve W lvs fmain depth st lv ws first) = Some s -> sol_deep lvs lv s).
+Proof. exact solve_deep. Qed.
+
 
